@@ -782,10 +782,16 @@ pub fn gen_rr_text(rng: &mut Rng) -> String {
         3 => ("CNAME", host(rng)),
         4 => ("PTR", host(rng)),
         5 => {
-            let n = *rng.pick(&[1usize, 5, 40, 255, 256, 300]);
+            let mut n = *rng.pick(&[1usize, 5, 40, 255, 256, 300, 254, 510, 765]);
+            // now and then a long string written entirely in decimal escapes: more than 8192
+            // characters of text for little more than 2 KB on the wire
+            let all_escaped = rng.chance(1, 16);
+            if all_escaped {
+                n = *rng.pick(&[2040usize, 2049, 2100, 2300]);
+            }
             let mut s = String::from("\"");
             for _ in 0..n {
-                match rng.below(12) {
+                match if all_escaped { 0 } else { rng.below(12) } {
                     0 => s.push_str(&format!("\\{:03}", rng.below(256))),
                     _ => s.push(*rng.pick(b"abcdefghijklmnopqrstuvwxyz0123456789 =;-_") as char),
                 }
